@@ -460,6 +460,8 @@ def check_entry_cfg(chk, rep, tier, cfg, tag):
             feat["two_merges"] += 1
         if len(b["sg"]) > len(BASE_SG.get(b["base"], ())) and any(w.startswith("Merge") for w in ws):
             feat["sample_groups_concatenated"] += 1
+        if b["base"] in ("T2e", "T3") and "Boxed" in ws:
+            feat["boxed_entry_with_repeated_equal_timestamp"] += 1
         if b["base"].endswith("i") and len(b["sg"]) > 2 and "Boxed" in ws:
             feat["boxed_inexact_size_hint_group_over_2"] += 1
     chk.extra["entry_compositions"] = chk.extra.get("entry_compositions", 0) + len(beh)
